@@ -99,10 +99,17 @@ async def wire(net, hyg, plan):
         state[0].content = []
         memory_populate(state, TREE)
 
-    async def attempt(user, verb, arg, cwd, moved=None):
+    async def attempt(user, verb, arg, cwd, moved=None, after=None):
         reset()
         s = Session(net, 2121, name=user)
-        await s.run([["connect"], ["login", user, "pw"]])
+        if after:
+            # the same control connection was used by another account before, which looked at the same path
+            await s.run([["connect"], ["login", after, "pw"]])
+            if cwd:
+                await s.run([["cmd", "CWD " + cwd]])
+            await s.run([["cmd", "MLST " + arg], ["cmd", "MLST " + (cwd or "/")], ["login", user, "pw"]])
+        else:
+            await s.run([["connect"], ["login", user, "pw"]])
         if cwd:
             await s.run([["cmd", "CWD " + cwd]])
             if s.outcomes[-1] != ["250"]:
@@ -181,6 +188,14 @@ async def wire(net, hyg, plan):
                     if got["codes"] != ctl["codes"] or got["tree"] != ctl["tree"] or got["pwd"] != ctl["pwd"]:
                         viol.append({"key": f"allowed-but-differs-from-control:{verb}:{label}",
                                      "msg": f"{where}: got {got['codes']} pwd={got['pwd']}, control {ctl['codes']} pwd={ctl['pwd']}"})
+                if label == "plain" and verb != "CDUP":
+                    # ... and after a re-login on a connection on which the other account has touched the same path
+                    again = await attempt("t", verb, arg, cwd, after="c")
+                    mon["after_relogin"] = mon.get("after_relogin", 0) + 1
+                    if again is not None and (again["codes"] != got["codes"] or again["tree"] != got["tree"]):
+                        viol.append({"key": f"permission-differs-after-relogin:{verb}",
+                                     "msg": f"{where}: as 't' on a fresh connection {got['codes']}; as 't' after user 'c' had used the "
+                                            f"connection and looked at the path: {again['codes']}"})
                 if (allowed and label == "relative" and verb in ("LIST", "MLSD", "RETR", "STOR", "APPE") and got["codes"]
                         and got["codes"][-1][:1] == ["150"]):
                     # the working directory changes between the mark and the data connection: the transfer is still the one
